@@ -26,6 +26,7 @@ import (
 var (
 	ErrSeekFail           = errors.New("failed to seek properly")
 	ErrUnrecognizedWhence = errors.New("unrecognized whence")
+	ErrNegativeOffset     = errors.New("seek to a negative offset")
 	ErrNotUnixfs          = errors.New("dagmodifier only supports unixfs nodes (proto or raw)")
 )
 
@@ -692,17 +693,23 @@ func (dm *DagModifier) Seek(offset int64, whence int) (int64, error) {
 		return 0, err
 	}
 
-	var newoffset uint64
+	var target int64
 	switch whence {
 	case io.SeekCurrent:
-		newoffset = dm.curWrOff + uint64(offset)
+		target = int64(dm.curWrOff) + offset
 	case io.SeekStart:
-		newoffset = uint64(offset)
+		target = offset
 	case io.SeekEnd:
-		newoffset = uint64(fisize) - uint64(offset)
+		// io.Seeker: the offset is relative to the end, so a negative
+		// offset moves backwards from the end of the file.
+		target = fisize + offset
 	default:
 		return 0, ErrUnrecognizedWhence
 	}
+	if target < 0 {
+		return 0, ErrNegativeOffset
+	}
+	newoffset := uint64(target)
 
 	if int64(newoffset) > fisize {
 		if err := dm.expandSparse(int64(newoffset) - fisize); err != nil {
